@@ -23,6 +23,7 @@ type GenParams struct {
 	CompactKinds []string
 	SingleVer    int // 0 = vary, else fixed version for the whole history (size trims)
 	IxProbe      bool
+	WBackup      int
 	ROPct        int // percentage of reopens that are read-only
 	IxProbeExtra int
 }
@@ -41,6 +42,7 @@ type genState struct {
 	ro     bool
 	h      *History
 	newver int
+	t0     int64
 }
 
 func (g *genState) add(op Op) { g.h.Ops = append(g.h.Ops, op) }
@@ -98,6 +100,11 @@ func (g *genState) msg() MsgSpec {
 	case "spaced":
 		g.t += 100000 * int64(pick(g.rng, []int{0, 1, 1, 2}))
 		m.T = g.t
+	case "spacedany": // on the 100ms grid, in any order
+		m.T = g.t0 + 100000*int64(g.rng.Intn(60))
+		if m.T > g.t {
+			g.t = m.T
+		}
 	default:
 		switch g.rng.Intn(10) {
 		case 0:
@@ -172,8 +179,9 @@ func genHistory(id int, seed int64, p GenParams) *History {
 	h.Keys, h.Times = ic&1 == 1, ic&2 == 2
 	h.Mono = p.TimeMode == "mono" || p.TimeMode == "spaced"
 	g := &genState{rng: rng, p: p, gone: map[int64]bool{}, h: h, t: 1000, newver: 2}
-	if p.TimeMode == "spaced" {
+	if p.TimeMode == "spaced" || p.TimeMode == "spacedany" {
 		g.t = -int64(p.Steps*p.MaxBatch+10) * 200000 // in the past, so that "now - age" cut-offs make sense
+		g.t0 = g.t
 	}
 	if rng.Intn(3) == 0 {
 		g.newver = 1
@@ -181,8 +189,21 @@ func genHistory(id int, seed int64, p GenParams) *History {
 	g.add(Op{Op: "open", O: g.drawOpts(true)})
 	g.open = true
 	total := p.WPublish + p.WDelete + p.WDeleteMulti + p.WReopen + p.WGC + p.WSync + p.WTrim + p.WCompact
+	dirty := true // the source was modified other than by appending since the last backup
 	for step := 0; step < p.Steps; step++ {
+		if p.WBackup > 0 && !g.ro && rng.Intn(100) < p.WBackup {
+			op := Op{Op: "backup", Var: rng.Intn(2)}
+			if dirty || rng.Intn(6) == 0 {
+				op.Arg = 1
+			}
+			dirty = false
+			g.add(op)
+			continue
+		}
 		r := rng.Intn(total)
+		if r >= p.WPublish && !(r >= p.WPublish+p.WDelete+p.WDeleteMulti+p.WReopen && r < p.WPublish+p.WDelete+p.WDeleteMulti+p.WReopen+p.WGC+p.WSync) {
+			dirty = true // deletes, trims, compactions, reopen (may migrate / rewrite): not append-only
+		}
 		switch {
 		case r < p.WPublish:
 			n := rng.Intn(p.MaxBatch + 1)
